@@ -762,6 +762,8 @@ int compatible_types (int t1, int t2) {
     return 1;
   if (t1 & TYPE_MOD_CLASS)
     return t1 == t2;
+  if (t2 & TYPE_MOD_CLASS)
+    return 0; /* a class is only compatible with the same class (or mixed, above) */
   if (t1 & TYPE_MOD_ARRAY)
     {
       if (!(t2 & TYPE_MOD_ARRAY))
@@ -791,6 +793,8 @@ int compatible_types2 (int t1, int t2) {
     return 1;
   if (t1 & TYPE_MOD_CLASS)
     return t1 == t2;
+  if (t2 & TYPE_MOD_CLASS)
+    return 0; /* a class is only compatible with the same class (or mixed, above) */
   if (t1 & TYPE_MOD_ARRAY)
     {
       if (!(t2 & TYPE_MOD_ARRAY))
